@@ -3,11 +3,11 @@ import ExprModel.Proofs.BcBoundary
 C05, part 9: what the static checker's verdict means, stated without the checker; the exactness of a patched
 jump below 64 KiB and its failure above.
 -/
-namespace ExprModel
+namespace ExprModel.Bc
 
-theorem Op.all_length : Op.all.length = 52 := by decide
+theorem op_all_length : Op.all.length = 52 := by decide
 
-theorem Op.code_of_ofCode {b : Nat} {op : Op} (h : Op.ofCode? b = some op) : op.code = b := by
+theorem op_code_of_ofCode {b : Nat} {op : Op} (h : Op.ofCode? b = some op) : op.code = b := by
   have key : (List.range 52).all (fun b => match Op.ofCode? b with
       | some op => op.code == b
       | none => false) = true := by decide
@@ -16,7 +16,7 @@ theorem Op.code_of_ofCode {b : Nat} {op : Op} (h : Op.ofCode? b = some op) : op.
     simp only [h, beq_iff_eq] at this
     exact this
   · unfold Op.ofCode? at h
-    rw [List.getElem?_eq_none (by rw [Op.all_length]; exact hb)] at h
+    rw [List.getElem?_eq_none (by rw [op_all_length]; exact hb)] at h
     cases h
 
 /-- decoding is faithful: the decoded instructions re-encode to the very bytes, their operands fit 16 bits -/
@@ -34,7 +34,7 @@ theorem decodeAll_sound : ∀ (fuel : Nat) (bs : List Nat) (is : List Instr),
     split at h
     · cases h
     · rename_i op hop
-      have hcode := Op.code_of_ofCode hop
+      have hcode := op_code_of_ofCode hop
       split at h
       · rename_i harg
         split at h
@@ -184,4 +184,4 @@ theorem codeSize_replicate_pop (n : Nat) : codeSize (List.replicate n ⟨.pop, 0
   | zero => rfl
   | succ k ih => simp [List.replicate_succ, ih, Instr.size, Op.hasArg]; omega
 
-end ExprModel
+end ExprModel.Bc
